@@ -26,6 +26,13 @@ pub struct JobDef {
     /// Ephemeral whose value contains the evaluation index (C16 family only)
     #[serde(default)]
     pub volatile: bool,
+    /// multi-output job whose i-th part reads only the i-th direct upstream (sorted by id): its outputs
+    /// change independently of each other, so a consumer of one part is unaffected by a change of another
+    #[serde(default)]
+    pub split_inputs: bool,
+    /// with `volatile`: only the last part contains the evaluation index
+    #[serde(default)]
+    pub volatile_last_only: bool,
 }
 
 impl JobDef {
@@ -35,6 +42,8 @@ impl JobDef {
             kind,
             ignores_inputs: false,
             volatile: false,
+            split_inputs: false,
+            volatile_last_only: false,
         }
     }
     pub fn parts(&self) -> Vec<&str> {
@@ -155,11 +164,12 @@ impl Graph {
             .iter()
             .map(|j| {
                 format!(
-                    "{}:{:?}{}{}",
+                    "{}:{:?}{}{}{}",
                     j.id,
                     j.kind,
                     if j.ignores_inputs { "!" } else { "" },
-                    if j.volatile { "~" } else { "" }
+                    if j.volatile { if j.volatile_last_only { "~last" } else { "~" } } else { "" },
+                    if j.split_inputs { "/split" } else { "" }
                 )
             })
             .collect();
@@ -324,31 +334,38 @@ impl Cfg {
     pub fn value(&self, j: usize, inp: &dyn Fn(usize, &str) -> String) -> BTreeMap<String, String> {
         let g = &self.graph;
         let jd = &g.jobs[j];
-        let ver = if jd.kind == Kind::A {
-            format!("@{}", self.versions[j])
-        } else if jd.volatile {
-            format!("#{}", self.step)
-        } else {
-            String::new()
-        };
-        let mut ins: Vec<(String, String)> = Vec::new();
-        if !jd.ignores_inputs {
-            for u in g.ups(j) {
-                if !g.edge(u, j).unwrap().read {
-                    continue;
-                }
-                for p in g.consumed(u, j) {
-                    let v = inp(u, &p);
-                    ins.push((p, v));
-                }
-            }
-        }
-        ins.sort();
-        let joined: Vec<String> = ins.into_iter().map(|(_, v)| v).collect();
-        let joined = joined.join(",");
+        let nparts = jd.parts().len();
+        let ups = g.ups(j);
         jd.parts()
             .iter()
-            .map(|p| (p.to_string(), format!("{}{}({})", p, ver, joined)))
+            .enumerate()
+            .map(|(pi, p)| {
+                let ver = if jd.kind == Kind::A {
+                    format!("@{}", self.versions[j])
+                } else if jd.volatile && (!jd.volatile_last_only || pi + 1 == nparts) {
+                    format!("#{}", self.step)
+                } else {
+                    String::new()
+                };
+                let mut ins: Vec<(String, String)> = Vec::new();
+                if !jd.ignores_inputs {
+                    for (ui, u) in ups.iter().enumerate() {
+                        if !g.edge(*u, j).unwrap().read {
+                            continue;
+                        }
+                        if jd.split_inputs && ui != pi {
+                            continue;
+                        }
+                        for q in g.consumed(*u, j) {
+                            let v = inp(*u, &q);
+                            ins.push((q, v));
+                        }
+                    }
+                }
+                ins.sort();
+                let joined: Vec<String> = ins.into_iter().map(|(_, v)| v).collect();
+                (p.to_string(), format!("{}{}({})", p, ver, joined.join(",")))
+            })
             .collect()
     }
 
